@@ -11,15 +11,10 @@ import (
 	"github.com/rulego/streamsql/utils/fieldpath"
 )
 
-// nullGroupKeyMarker is the group-key segment for a missing/nil group field
-// (e.g. a LEFT JOIN row with no match). Rows sharing it collapse into one NULL
-// group; GetResults maps it back to nil. The \x00 byte avoids collisions with
-// realistic field values.
-const nullGroupKeyMarker = "\x00NULL"
-
-// groupKeySep 分隔分组键各字段。\x1f（单元分隔符）在真实数据中极少出现，避免字段值含
-// 分隔符导致的键碰撞（曾用 "|"：含 "|" 的值会被还原阶段截断、多字段还会错位）。
-const groupKeySep = "\x1f"
+// Group keys are the concatenation of cast.GroupKeyPart segments (length-prefixed,
+// type-tagged), one per GROUP BY field. A missing/nil field (e.g. a LEFT JOIN row with
+// no match) is encoded as the nil segment, so such rows collapse into one NULL group
+// that no string value can imitate; GetResults reports it as nil.
 
 // Aggregator aggregator interface
 type Aggregator interface {
@@ -213,16 +208,14 @@ func (ga *GroupAggregator) Add(data any) error {
 		// collapses into a single NULL group keyed by the sentinel; GetResults
 		// maps it back to nil. Avoids dropping the whole row on a nullable key.
 		if !found || fieldVal == nil {
-			key += nullGroupKeyMarker + groupKeySep
+			key += cast.GroupKeyPart(nil)
 			keyVals = append(keyVals, nil)
 			continue
 		}
 
-		if str, ok := fieldVal.(string); ok {
-			key += str + groupKeySep
-		} else {
-			key += fmt.Sprintf("%v", fieldVal) + groupKeySep
-		}
+		// Length-prefixed, type-tagged segment: no value (whatever bytes it
+		// contains) can run into the next column or imitate the NULL group.
+		key += cast.GroupKeyPart(fieldVal)
 		keyVals = append(keyVals, fieldVal)
 	}
 
